@@ -53,6 +53,7 @@ async def scenario(loop, plan, w, host_factory=None):
     K = plan["K"]
     line = Line(loop, plan.get("fh"), plan.get("fn"), plan.get("fg"), plan.get("ft"))
     w.line = line
+    line.merge_reads = bool(plan.get("merge"))
     w.h_up = Upper(loop)
     w.up_raised = 0
     if plan.get("up_raise"):
@@ -225,6 +226,8 @@ def check(plan, host_factory=None) -> Result:
         r.cls("number-wrap")
     if w.cancelled:
         r.cls("cancel")
+    if plan.get("merge"):
+        r.cls("back-to-back-frames-in-one-read")
     if w.up_raised:
         r.cls("upper-layer-raised-on-delivery")
     if w.h_resets:
@@ -284,6 +287,8 @@ def plans(draw):
     fh = draw(st.lists(fate, max_size=25))
     fn = draw(st.lists(st.one_of(fate, fate, fate, st.integers(1, 6).map(lambda k: ["L", k])), max_size=25))
     plan = {"K": K, "ops": ops, "fh": fh, "fn": fn}
+    if draw(st.integers(0, 2)) == 0:
+        plan["merge"] = 1
     if draw(st.integers(0, 3)) == 0:
         plan["up_raise"] = sorted(draw(st.sets(st.integers(1, 12), min_size=1, max_size=4)))
     return plan
@@ -358,6 +363,20 @@ def _worker_latedup(ctx, job):
                 ctx.check(plan, res, sample=(a == 1 and k == 1 and d == 2))
 
 
+def _worker_merged(ctx, job):
+    """Several peer frames in one read while a host frame is unacknowledged: the first of them carries the (piggy-backed)
+    acknowledgement the host is waiting for, the next ones follow in the same chunk."""
+    K, drop_ack = job
+    for nn in (2, 3):
+        for t_n in (0.0007, 0.3, 1.61):
+            for nh in (1, 2):
+                ops = [["h", round(i * 0.0002, 4), 2] for i in range(nh)] + [["n", t_n, 1 + j] for j in range(nn)]
+                plan = {"K": K, "ops": ops, "merge": 1, "fn": [["x"]] * drop_ack}
+                res = check(plan)
+                res.cls("merged-reads-enumeration")
+                ctx.check(plan, res, sample=(nn == 2 and drop_ack == 1 and nh == 1 and t_n == 0.3))
+
+
 def _worker_budget(ctx, n):
     ctx.search(budget_plans(), check, max_examples=n)
 
@@ -405,3 +424,4 @@ def run(ctx):
     ctx.exhaustive["all 5^5 fate assignments to the five transmissions of one host payload, K=1..3"] = True
     ctx.parallel(_worker_budget, [120] * 16 if quick else [8000] * 16)
     ctx.parallel(_worker_latedup, [(K, a) for K in (1, 2, 3) for a in range(0, 6)])
+    ctx.parallel(_worker_merged, [(K, d) for K in (2, 3) for d in (0, 1, 2)])
